@@ -88,6 +88,7 @@ func execC09(c CaseC09) *Outcome {
 	}
 	addrs := make([]string, n)
 	shared0 := &orbitdb.CreateDBOptions{}
+	sameSig := map[string]bool{}
 	for d, db := range c.DBs {
 		var list []string
 		switch db.List {
@@ -101,7 +102,15 @@ func execC09(c CaseC09) *Outcome {
 		ac := &accesscontroller.CreateAccessControllerOptions{Access: map[string][]string{"write": list}}
 		// the author creates the database; the instance under test opens all of its databases with ONE
 		// options value, as callers commonly do
-		s2, err := w.Peers[2].DB.Create(ctx, fmt.Sprintf("db%d", d), db.Type, &orbitdb.CreateDBOptions{AccessController: ac, Replicate: &no})
+		// databases that differ by type or write list carry the SAME name (their addresses differ by the manifest
+		// hash only); a second database with the same type and list gets a name of its own
+		name := "db"
+		sig := fmt.Sprintf("%s/%d", db.Type, db.List)
+		if sameSig[sig] {
+			name = fmt.Sprintf("db%d", d)
+		}
+		sameSig[sig] = true
+		s2, err := w.Peers[2].DB.Create(ctx, name, db.Type, &orbitdb.CreateDBOptions{AccessController: ac, Replicate: &no})
 		if err != nil {
 			return fail("harness: create: %v", err)
 		}
